@@ -55,7 +55,8 @@ def srvStep (reg : AList Method) (args : List String) : AList Method × String :
     | some p =>
       let (r, inv) := handle reg true (tok name) p
       -- over a real transport the invocation count is not observable
-      if rest.contains "noinv=1" then (reg, showReply r) else (reg, showReply r ++ " inv=" ++ (if inv then "1" else "0"))
+      if rest.contains "noinv=1" then
+        (reg, match r with | .result | .internalError => "ran" | _ => showReply r) else (reg, showReply r ++ " inv=" ++ (if inv then "1" else "0"))
     | none => (reg, "bad-op")
   | ["notrequest"] => let (r, inv) := handle reg false "" .absent; (reg, showReply r ++ " inv=" ++ (if inv then "1" else "0"))
   | ["names"] => (reg, "ok " ++ joinC (sortStrings reg.keys))
